@@ -531,3 +531,195 @@ Example C11_text_locations_computed :
   label_pos toks (text_positions nf nf nf txt) (9, 1) = (1, 4) /\
   label_pos toks (text_positions nf nf nf txt) (9, 12) = (10, 3).
 Proof. vm_compute. repeat split. Qed.
+
+(* ================================================================== 7. SOUNDNESS: every accepted token sequence is a printing of its tree,
+   and what the reference grammar does not generate is rejected (second sentence of the property).
+   The reference grammar's language is the image of the printer: `ref_parses ts t` (Parse/Sound.v) says that the
+   NORMALISED sequence `normalize ts` is `print_any c t` for a parenthesis oracle c with `printable c t`.
+   `normalize` is an explicit function of the token sequence alone (left-to-right scan, one token of look-ahead,
+   a stack of the open brackets; it never runs the parser).  It forgets the locations of the tokens no node is
+   anchored at — ( ) ] } , : ? . ?. EOF and bare map keys — and rewrites the spellings the parser treats alike to
+   the printer's: number literals to the formatter's spelling of their value, Operator-kind member names (`a.not`) to
+   Identifier tokens, bare map keys to String tokens, the implicit pointer `.x` to `# . x`, a `.` after `?.` in the same
+   chain to `?.` (sticky NilSafe), trailing commas of arrays and maps and everything after EOF dropped.  All other
+   tokens are kept with their kind, value and location: the equality of token lists includes that every node is
+   located at its anchor token.
+   Carve-out `sound_scope ts` (decidable): `good (brace_locs ts) ts` — Bracket tokens are one of ( ) [ ] { } and `[`
+   is no Operator token (what lexer.Lex guarantees), no String token stands at the location of a `{` token, the
+   formatter's spelling of every number token's value denotes that value — and `clean (normalize ts)` — none of the
+   four situations in which `normalize` emits its `poison` token: a literal directly followed by `.` `?.` `[`
+   (accepted behind a unary operator: `- "a" . b` is parsed as (-"a").b), the conditional with omitted middle `a ?: b`,
+   a map key that starts with `(` without being one parenthesised expression (`{(a).b: 1}`), an identifier followed
+   by a non-operator token whose value is "?.".  The first three are ACCEPTED by the pinned parser although no
+   printing has that shape: C11_sound_full_statement_refuted. *)
+Require Import X.Parse.Sound X.Parse.SoundCorProofs.
+
+Theorem C11_parse_sound : forall (o : oracles) (fmt_int : Z -> string) (fmt_float : PrimFloat.float -> string) (ts : list token) (t : expr),
+  sound_scope gen_grammar o fmt_int fmt_float ts = true -> parse gen_grammar o ts = ROk t ->
+  exists c, printable gen_grammar fmt_int fmt_float o c t /\
+            normalize gen_grammar o fmt_int fmt_float ts = print_any gen_grammar fmt_int fmt_float c t.
+Proof. exact parse_sound_gen_grammar. Qed.
+Print Assumptions C11_parse_sound.
+
+(* parametric in the tables, like the round trip *)
+Theorem C11_parse_sound_parametric : forall (g : grammar) (o : oracles) (fmt_int : Z -> string) (fmt_float : PrimFloat.float -> string),
+  wf_grammar g = true -> forall (ts : list token) (t : expr),
+  sound_scope g o fmt_int fmt_float ts = true -> parse g o ts = ROk t -> ref_parses g o fmt_int fmt_float ts t.
+Proof. exact parse_sound. Qed.
+Print Assumptions C11_parse_sound_parametric.
+
+(* the tree the parser returns is THE tree of the reference grammar (which is unambiguous) *)
+Theorem C11_unique_tree : forall (o : oracles) (fmt_int : Z -> string) (fmt_float : PrimFloat.float -> string) (ts : list token) (t1 t2 : expr),
+  sound_scope gen_grammar o fmt_int fmt_float ts = true -> parse gen_grammar o ts = ROk t1 ->
+  ref_parses gen_grammar o fmt_int fmt_float ts t2 -> t1 = t2.
+Proof. exact unique_tree_gen. Qed.
+Print Assumptions C11_unique_tree.
+
+Theorem C11_reference_unambiguous : forall (o : oracles) (fmt_int : Z -> string) (fmt_float : PrimFloat.float -> string) (ts : list token) (t1 t2 : expr),
+  ref_parses gen_grammar o fmt_int fmt_float ts t1 -> ref_parses gen_grammar o fmt_int fmt_float ts t2 -> t1 = t2.
+Proof. exact (fun o fi ff => ref_unambiguous gen_grammar o fi ff gen_grammar_wf). Qed.
+Print Assumptions C11_reference_unambiguous.
+
+(* rejected <-> not generated.  `plain ts` (decidable): the normalisation changes nothing but locations.  The
+   direction <- (C11_not_generated_rejected) needs no such restriction; the direction -> for sequences that use one
+   of the alternative spellings is not proved (it needs the parser's invariance under `normalize`). *)
+Theorem C11_rejects_iff : forall (o : oracles) (fmt_int : Z -> string) (fmt_float : PrimFloat.float -> string) (ts : list token),
+  sound_scope gen_grammar o fmt_int fmt_float ts = true -> plain gen_grammar o fmt_int fmt_float ts = true ->
+  ((exists e, parse gen_grammar o ts = RErr e) <-> ~ (exists t, ref_parses gen_grammar o fmt_int fmt_float ts t)).
+Proof. exact rejects_iff_gen. Qed.
+Print Assumptions C11_rejects_iff.
+
+Theorem C11_not_generated_rejected : forall (o : oracles) (fmt_int : Z -> string) (fmt_float : PrimFloat.float -> string) (ts : list token),
+  sound_scope gen_grammar o fmt_int fmt_float ts = true ->
+  ~ (exists t, ref_parses gen_grammar o fmt_int fmt_float ts t) -> exists e, parse gen_grammar o ts = RErr e.
+Proof. exact not_ref_rejected_gen. Qed.
+Print Assumptions C11_not_generated_rejected.
+
+Theorem C11_generated_accepted : forall (o : oracles) (fmt_int : Z -> string) (fmt_float : PrimFloat.float -> string) (ts : list token) (t : expr),
+  plain gen_grammar o fmt_int fmt_float ts = true -> ref_parses gen_grammar o fmt_int fmt_float ts t ->
+  exists t', parse gen_grammar o ts = ROk t' /\ erase_loc t' = erase_loc t.
+Proof. exact ref_accepted_gen. Qed.
+Print Assumptions C11_generated_accepted.
+
+(* the fuel of the model is sufficient for every token list (same statement as C04_parse_total) *)
+Theorem C11_parse_total : forall (g : grammar) (o : oracles) (ts : list token), parse g o ts <> RFuel.
+Proof. exact X.Parse.FuelProofs.parse_total. Qed.
+Print Assumptions C11_parse_total.
+
+(* ---- what is NOT true of the pinned tree: without the `clean` part of the carve-out the statement is false *)
+Definition C11_sound_full_statement : Prop := parse_sound_full_statement gen_grammar o_any dec ff0.
+Theorem C11_sound_full_statement_refuted : ~ C11_sound_full_statement.
+Proof. exact full_statement_refuted. Qed.
+Print Assumptions C11_sound_full_statement_refuted.
+
+(* the three accepted shapes no printing has: accepted with the tree shown, in `good`, not `clean`, not generated *)
+Theorem C11_sound_witnesses :
+  (parse gen_grammar o_any w_unary_postfix = ROk t_unary_postfix /\
+   good o_any dec ff0 (brace_locs w_unary_postfix) w_unary_postfix = true /\
+   clean (normalize gen_grammar o_any dec ff0 w_unary_postfix) = false) /\
+  (parse gen_grammar o_any w_elvis = ROk t_elvis /\
+   good o_any dec ff0 (brace_locs w_elvis) w_elvis = true /\
+   clean (normalize gen_grammar o_any dec ff0 w_elvis) = false) /\
+  (parse gen_grammar o_any w_open_key = ROk t_open_key /\
+   good o_any dec ff0 (brace_locs w_open_key) w_open_key = true /\
+   clean (normalize gen_grammar o_any dec ff0 w_open_key) = false).
+Proof. exact witness_facts. Qed.
+
+Theorem C11_sound_witnesses_not_generated :
+  ~ ref_parses gen_grammar o_any dec ff0 w_unary_postfix t_unary_postfix /\
+  ~ ref_parses gen_grammar o_any dec ff0 w_elvis t_elvis /\
+  ~ ref_parses gen_grammar o_any dec ff0 w_open_key t_open_key.
+Proof. exact witness_not_ref. Qed.
+Print Assumptions C11_sound_witnesses_not_generated.
+
+(* ---- non-vacuity.  16 tokens + EOF with nested parentheses, a conditional, a builtin call and a closure:
+        ( ( a ) ) ? all ( x , { # } ) : b *)
+Definition snd_ts : list token :=
+  [tB 1 0 "("; tB 1 1 "("; tI 1 2 "a"; tB 1 3 ")"; tB 1 4 ")"; tO 1 6 "?"; tI 1 8 "all"; tB 1 11 "("; tI 1 12 "x"; tO 1 13 ",";
+   tB 1 15 "{"; tO 1 16 "#"; tB 1 17 "}"; tB 1 18 ")"; tO 1 20 ":"; tI 1 22 "b"; tE 1 23].
+Definition snd_tree : expr :=
+  ECond ann0 (EIdent (at_loc (1, 2)) "a" false)
+        (EBuiltin (at_loc (1, 8)) BiAll [EIdent (at_loc (1, 12)) "x" false; EClosure (at_loc (1, 15)) (EPointer (at_loc (1, 16)))])
+        (EIdent (at_loc (1, 22)) "b" false).
+Definition snd_oracle : poracle := fun path => match path with [O] => 2%nat | _ => O end.
+
+Example C11_sound_nonvacuous :
+  sound_scope gen_grammar ex_oracles dec ex_fmt_float snd_ts = true /\
+  plain gen_grammar ex_oracles dec ex_fmt_float snd_ts = true /\
+  parse gen_grammar ex_oracles snd_ts = ROk snd_tree /\
+  normalize gen_grammar ex_oracles dec ex_fmt_float snd_ts = print_any gen_grammar dec ex_fmt_float snd_oracle snd_tree /\
+  print_any gen_grammar dec ex_fmt_float (oracle_of_tokens gen_grammar ex_oracles dec ex_fmt_float snd_ts) snd_tree
+    = normalize gen_grammar ex_oracles dec ex_fmt_float snd_ts /\
+  map (oracle_of_tokens gen_grammar ex_oracles dec ex_fmt_float snd_ts) [[]; [O]; [1%nat]; [2%nat]; [1%nat; 1%nat]]
+    = map snd_oracle [[]; [O]; [1%nat]; [2%nat]; [1%nat; 1%nat]] /\
+  map (fun t => (tval t, tloc t)) (normalize gen_grammar ex_oracles dec ex_fmt_float snd_ts) =
+    [("(", noloc); ("(", noloc); ("a", (1, 2)); (")", noloc); (")", noloc); ("?", noloc); ("all", (1, 8)); ("(", noloc);
+     ("x", (1, 12)); (",", noloc); ("{", (1, 15)); ("#", (1, 16)); ("}", noloc); (")", noloc); (":", noloc); ("b", (1, 22)); ("", noloc)].
+Proof. vm_compute. repeat split. Qed.
+
+Example C11_sound_nonvacuous_printable : printable gen_grammar dec ex_fmt_float ex_oracles snd_oracle snd_tree.
+Proof. vm_compute. repeat split; try reflexivity; intros; try discriminate; try congruence. Qed.
+
+(* the theorem applied (not recomputed) *)
+Example C11_sound_example_applied :
+  exists c, printable gen_grammar dec ex_fmt_float ex_oracles c snd_tree /\
+            normalize gen_grammar ex_oracles dec ex_fmt_float snd_ts = print_any gen_grammar dec ex_fmt_float c snd_tree.
+Proof.
+  exact (C11_parse_sound ex_oracles dec ex_fmt_float snd_ts snd_tree
+           (proj1 C11_sound_nonvacuous) (proj1 (proj2 (proj2 C11_sound_nonvacuous)))).
+Qed.
+
+(* a sequence that uses every alternative spelling: implicit pointer, sticky `.` after `?.`, hexadecimal number,
+   identifier and parenthesised map keys, trailing comma, redundant parentheses, Operator-kind member name:
+        filter(xs, {.a?.b.c > 0x10}) ? {k: 1, (z): [1, ((2)),]} : f(1, (g.not))
+   in scope, not plain; its normalisation is the printing of its tree with the computed oracle *)
+Definition sugar_ts : list token :=
+  [tI 1 0 "filter"; tB 1 1 "("; tI 1 2 "xs"; tO 1 3 ","; tB 1 4 "{"; tO 1 5 "."; tI 1 6 "a"; tO 1 7 "?."; tI 1 8 "b"; tO 1 9 "."; tI 1 10 "c";
+   tO 1 11 ">"; tN 1 12 "0x10"; tB 1 13 "}"; tB 1 14 ")"; tO 1 15 "?";
+   tB 1 16 "{"; tI 1 17 "k"; tO 1 18 ":"; tN 1 19 "1"; tO 1 20 ","; tB 1 21 "("; tI 1 22 "z"; tB 1 23 ")"; tO 1 24 ":";
+   tB 1 25 "["; tN 1 26 "1"; tO 1 27 ","; tB 1 50 "("; tB 1 51 "("; tN 1 28 "2"; tB 1 52 ")"; tB 1 53 ")"; tO 1 29 ","; tB 1 30 "]"; tB 1 31 "}"; tO 1 32 ":";
+   tI 1 33 "f"; tB 1 34 "("; tN 1 35 "1"; tO 1 36 ","; tB 1 60 "("; tI 1 37 "g"; tO 1 38 "."; tO 1 39 "not"; tB 1 61 ")"; tB 1 40 ")"; tE 1 41].
+
+Example C11_sound_sugar :
+  sound_scope gen_grammar ex_oracles dec ex_fmt_float sugar_ts = true /\
+  plain gen_grammar ex_oracles dec ex_fmt_float sugar_ts = false /\
+  match parse gen_grammar ex_oracles sugar_ts with
+  | ROk t => print_any gen_grammar dec ex_fmt_float (oracle_of_tokens gen_grammar ex_oracles dec ex_fmt_float sugar_ts) t
+             = normalize gen_grammar ex_oracles dec ex_fmt_float sugar_ts
+  | _ => False
+  end /\
+  map tval (normalize gen_grammar ex_oracles dec ex_fmt_float sugar_ts) =
+    ["filter"; "("; "xs"; ","; "{"; "#"; "."; "a"; "?."; "b"; "?."; "c"; ">"; "16"; "}"; ")"; "?";
+     "{"; "k"; ":"; "1"; ","; "("; "z"; ")"; ":"; "["; "1"; ","; "("; "("; "2"; ")"; ")"; "]"; "}"; ":";
+     "f"; "("; "1"; ","; "("; "g"; "."; "not"; ")"; ")"; ""].
+Proof. vm_compute. repeat split. Qed.
+
+(* the carve-out holds of what lexer.Lex produces: the text of the sequence above, lexed by the model lexer, is in scope,
+   and its normalisation is the printing of its tree with the computed oracle *)
+Example C11_sound_lexed_text :
+  match lex nf nf nf (rs "filter(xs, {.a?.b.c > 0x10}) ? {k: 1, (z): [1, ((2)),]} : f(1, (g.not)) ") with
+  | LexOk toks =>
+      sound_scope gen_grammar ex_oracles dec ex_fmt_float toks = true /\
+      match parse gen_grammar ex_oracles toks with
+      | ROk t => print_any gen_grammar dec ex_fmt_float (oracle_of_tokens gen_grammar ex_oracles dec ex_fmt_float toks) t
+                 = normalize gen_grammar ex_oracles dec ex_fmt_float toks
+      | _ => False
+      end
+  | _ => False
+  end.
+Proof. vm_compute. split; reflexivity. Qed.
+
+(* ---- computed in Coq on EVERY sequence of at most 4 tokens (+ EOF) over a 20-symbol alphabet, 168 421 sequences
+   (`check_seq`, Parse/SoundCorProofs.v): in scope and accepted -> the normalised sequence is the printing of the
+   returned tree with the COMPUTED oracle `oracle_for`; in scope and rejected -> the normalised sequence is rejected
+   too, hence the reference grammar assigns it no tree (C11_sweep_rejected): on these sequences `rejected -> not
+   generated` holds without the restriction `plain` of C11_rejects_iff *)
+Example C11_sound_bounded_sweep : check_all 4 [] = true /\ count_all 4 = 168421.
+Proof. exact bounded_sweep_4. Qed.
+
+Theorem C11_sweep_rejected : forall (s : list (tkind * string)) (e : loc),
+  check_seq s = true -> sound_scope gen_grammar o_any dec ff0 (locate 1 s) = true ->
+  parse gen_grammar o_any (locate 1 s) = RErr e ->
+  ~ (exists t, ref_parses gen_grammar o_any dec ff0 (locate 1 s) t).
+Proof. exact check_seq_rejected. Qed.
+Print Assumptions C11_sweep_rejected.
